@@ -202,6 +202,9 @@ def stepCandidate (r : Raft) (m : Message) : Res (Raft × Option RaftError) :=
   | .msgRequestPreVoteResponse | .msgRequestVoteResponse =>
     if (r.state = .preCandidate ∧ m.msgType ≠ .msgRequestPreVoteResponse) ∨
        (r.state = .candidate ∧ m.msgType ≠ .msgRequestVoteResponse) then .ok (r, none)
+    -- a granted pre-vote answers this pre-campaign only if it carries our term + 1 (fix F16;
+    -- `checked_add`: no overflow)
+    else if r.state = .preCandidate ∧ m.reject = false ∧ ¬ (r.term < U64_MAX ∧ m.term = r.term + 1) then .ok (r, none)
     else
       (r.poll m.frm m.msgType (!m.reject)).bind (fun (r, _) =>
         (r.maybeCommitByVote m).bind (fun r => .ok (r, none)))
